@@ -36,7 +36,8 @@ def corpus_files(pid):
 
 
 def run_harness(R, h, kind, n, seed, ms, ops_files=(), tag=""):
-    trace = os.path.join(R.work, "tables-trace" + tag)
+    # one file per process: a quick and a thorough run of the same check may be in flight at the same time
+    trace = os.path.join(R.work, "tables-trace%s-%d" % (tag, os.getpid()))
     env = vlib.goenv()
     env.update(VERIF_SEED=str(seed), VERIF_N=str(n), VERIF_OUT=trace, VERIF_KIND=kind,
                VERIF_MS=",".join(str(m) for m in ms), VERIF_OPS=":".join(ops_files))
@@ -50,6 +51,11 @@ def run_runner(exe, trace, timeout=1500):
     with open(trace, errors="replace") as f:
         data = f.read()
     rc, out = vlib.sh(exe, stdin=data, timeout=timeout)
+    if not os.environ.get("VERIF_KEEP"):
+        try:
+            os.remove(trace)
+        except OSError:
+            pass
     return rc, out, data
 
 
@@ -114,7 +120,7 @@ def shrink(R, exe, h, kind, ops_lines, still_fails, budget=60):
     counter = [0]
     def fails(sub):
         counter[0] += 1
-        p = os.path.join(R.work, "tables-shrink-%d.ops" % (counter[0] % 4))
+        p = os.path.join(R.work, "tables-shrink-%d-%d.ops" % (os.getpid(), counter[0] % 2))
         open(p, "w").write("\n".join(head + sub) + "\n")
         tr, out = run_harness(R, h, kind, 0, 1, [1], [p], tag="-shrink")
         if tr is None:
@@ -160,7 +166,7 @@ def replay(R, path, kind):
     if b is None:
         print("build failed"); return 2
     exe, h = b
-    p = os.path.join(R.work, "tables-replay.ops")
+    p = os.path.join(R.work, "tables-replay-%d.ops" % os.getpid())
     open(p, "w").write("\n".join(ops) + "\n")
     tr, out = run_harness(R, h, kind, 0, 1, [1], [p], tag="-replay")
     if tr is None:
@@ -173,3 +179,30 @@ def replay(R, path, kind):
     print("replay: %d oracle failure(s), %d divergence(s), %d minimality failure(s), %d anomaly(ies)" % (
         len(rep.oracle), len(rep.diverge), len(rep.minimal), len(rep.anomaly)))
     return 1 if bad else 0
+
+
+def oracle_selftest(R, exe, trace_text, label="T", kind="nh"):
+    """Guard against a vacuous pass: corrupt one lookup observation of the first case of this run's trace and require
+    the runner's spec oracle to report it."""
+    lines = trace_text.split("\n")
+    out, done, in_first = [], False, False
+    for l in lines:
+        if l.startswith("C "):
+            if in_first:
+                break
+            in_first = True
+        if in_first:
+            if not done and l.startswith(label + " " + kind + " "):
+                vals = l.split(" ", 2)[2].split("|")
+                vals[0] = "9:9" if vals[0] != "9:9" else "8:8"
+                l = label + " " + kind + " " + "|".join(vals)
+                done = True
+            out.append(l)
+        if in_first and l == "E":
+            break
+    if not done:
+        return
+    rc, rout = vlib.sh(exe, stdin="\n".join(out) + "\n", timeout=120)
+    if "ORACLE" not in rout:
+        R.proof_problems.append("oracle self-test failed: a corrupted %s observation was not reported by the runner" % kind)
+    R.coverage["oracle_selftest"] = "a corrupted lookup observation of this run's first case is reported by the spec oracle"
